@@ -76,3 +76,18 @@ Print Assumptions C07_debug_unguarded_is.
 Theorem C07_racy_reported_is : racy_reported = [].
 Proof. exact racy_reported_is. Qed.
 Print Assumptions C07_racy_reported_is.
+
+(** every use site of an accessor / RAII class that writes an unsynchronised
+    global cell (MemRegistry via ScopedMem / mem_registry(), Environment via
+    environment(), device activation, logger setters, ScopedMpiInit,
+    kernel_registry()) is in the reviewed list and none of them lies in a
+    function on a per-stream path *)
+Theorem C07_unsync_cells_not_used_per_stream :
+  forallb (fun u => existsb (fun r => key3_eqb (fst r) (use_key u)) unsync_use_reviewed && negb (snd u)) unsync_uses = true.
+Proof. exact unsync_cells_not_used_per_stream. Qed.
+Print Assumptions C07_unsync_cells_not_used_per_stream.
+
+Theorem C07_unsync_use_rows_current :
+  forallb (fun r => existsb (fun u => key3_eqb (fst r) (use_key u)) unsync_uses) unsync_use_reviewed = true.
+Proof. exact unsync_use_rows_current. Qed.
+Print Assumptions C07_unsync_use_rows_current.
